@@ -20,7 +20,8 @@ Every Rust panic site on these paths is an explicit `panic` outcome: `debug_asse
 `hex_prefix`, `split_at_mut` in `read_line_inner`, the `expect("only valid data …")`s, `d[0]` in
 `decode_band`, the `buf[pos..cap]` slice in `fill_buf`. (Modelled after the two `fix:` commits
 recorded in known-findings.txt: oversized prefixes are rejected before `split_at_mut`, and
-`TextRef::from` accepts an empty slice.)
+`TextRef::from` accepts an empty slice.) The progress handler is modelled by the index of the
+call it answers with `Interrupt` (`SB.interruptAt`).
 `std::io::Read::read_exact` is modelled over a reader that hands out the stream in arbitrary
 non-empty chunks (`List Bytes`); `faster_hex::hex_decode` is modelled as any-case hex (tied by the
 correspondence sweep over all 65 536 four-digit prefixes and non-hex bytes).
@@ -419,14 +420,18 @@ inductive SBErr
   | nonData              -- band::Error::NonDataLine
   | invalidBand (id : Nat)
   | notDataLine          -- "encountered non-data line in a data-line only context"
+  | interrupted          -- the progress handler answered `ProgressAction::Interrupt`
   deriving Repr, DecidableEq
 
 structure SB where
   r : Reader
-  handler : Bool                 -- `handle_progress.is_some()`; the handler always says `Continue`
+  handler : Bool                 -- `handle_progress.is_some()`
   pos : Nat
   cap : Nat
   log : List (Bool × Bytes)      -- handler calls `(is_error, text)`, oldest first
+  /-- the handler answers `Interrupt` to its call number `k` (counting from 0) and `Continue` to
+  every other call; `none`: it always answers `Continue` -/
+  interruptAt : Option Nat := none
 
 inductive Fill
   | ok (ofs cap : Nat)
@@ -435,7 +440,8 @@ inductive Fill
   deriving Repr, DecidableEq
 
 /-- the `loop` inside `fill_buf` -/
-def fillLoop (c : Consts) : Nat → Reader → Bool → List (Bool × Bytes) → Fill × Reader × List (Bool × Bytes)
+def fillLoop (c : Consts) (intr : Option Nat) : Nat → Reader → Bool → List (Bool × Bytes) →
+    Fill × Reader × List (Bool × Bytes)
   | 0, r, _, log => (.panic, r, log)   -- out of fuel: never reached (`fillFuel`), made loud on purpose
   | fuel + 1, r, handler, log =>
     match readLine c r with
@@ -452,9 +458,11 @@ def fillLoop (c : Consts) : Nat → Reader → Bool → List (Bool × Bytes) →
         | .panic => (.panic, r1, log)
         | .band k d =>
           if k = 1 then
-            if d.isEmpty then fillLoop c fuel r1 handler log
+            if d.isEmpty then fillLoop c intr fuel r1 handler log
             else (.ok (c.u16HexBytes + 1) d.length, r1, log)
-          else fillLoop c fuel r1 handler (log ++ [(k == 3, textFrom d)])
+          else if intr = some log.length then
+            (.err .interrupted, r1, log ++ [(k == 3, textFrom d)])   -- the handler saw the text, then said Interrupt
+          else fillLoop c intr fuel r1 handler (log ++ [(k == 3, textFrom d)])
       else match l.asSlice with
         | some d => (.ok c.u16HexBytes d.length, r1, log)
         | none => (.err .notDataLine, r1, log)
@@ -476,7 +484,7 @@ def bufSlice (b : Buf) (pos cap : Nat) : FillBuf :=
 /-- `BufRead::fill_buf` -/
 def fillBuf (c : Consts) (s : SB) : FillBuf × SB :=
   if s.pos ≥ s.cap then
-    match fillLoop c (fillFuel s.r) s.r s.handler s.log with
+    match fillLoop c s.interruptAt (fillFuel s.r) s.r s.handler s.log with
     | (.panic, r1, log) => (.panic, { s with r := r1, log })
     | (.err e, r1, log) => (.err e, { s with r := r1, log })
     | (.ok ofs cap, r1, log) =>
@@ -507,6 +515,54 @@ def drain (c : Consts) : SB → List Nat → Bytes → Bytes × DrainEnd × SB
     | (.panic, s1) => (acc, .panic, s1)
     | (.err e, s1) => (acc, .err e, s1)
     | (.ok out, s1) => if out.isEmpty then (acc, .eof, s1) else drain c s1 ns (acc ++ out)
+
+/-- `BufRead::consume(amt)`: `self.pos = min(self.pos + amt, self.cap)`; `none` is the overflow of
+`self.pos + amt` in usize (a panic with overflow checks). The `BufRead` contract asks for
+`amt ≤` the length of the slice `fill_buf` returned, which is far below that. -/
+def sbConsume (s : SB) (amt : Nat) : Option SB :=
+  if s.pos + amt ≥ 18446744073709551616 then none
+  else some { s with pos := min (s.pos + amt) s.cap }
+
+/-- one call on `WithSidebands` -/
+inductive SBCall
+  | fill                 -- `fill_buf()`
+  | consume (amt : Nat)  -- `consume(amt)`
+  | read (n : Nat)       -- `read(&mut [0; n])`
+  deriving Repr, DecidableEq
+
+/-- what a call returned -/
+inductive SBObs
+  | bytes (bs : Bytes)   -- `Ok(slice)` of `fill_buf` / the bytes `read` copied
+  | consumed
+  | err (e : SBErr)
+  | panic
+  deriving Repr, DecidableEq
+
+def sbCall (c : Consts) (s : SB) : SBCall → SBObs × SB
+  | .fill =>
+    match fillBuf c s with
+    | (.ok bs, s1) => (.bytes bs, s1)
+    | (.err e, s1) => (.err e, s1)
+    | (.panic, s1) => (.panic, s1)
+  | .consume amt =>
+    match sbConsume s amt with
+    | some s1 => (.consumed, s1)
+    | none => (.panic, s)
+  | .read n =>
+    match sbRead c s n with
+    | (.ok bs, s1) => (.bytes bs, s1)
+    | (.err e, s1) => (.err e, s1)
+    | (.panic, s1) => (.panic, s1)
+
+/-- a sequence of calls; a panic ends it -/
+def runSB (c : Consts) : List SBCall → SB → List SBObs × SB
+  | [], s => ([], s)
+  | k :: ks, s =>
+    let x := sbCall c s k
+    if x.1 = .panic then ([x.1], x.2)
+    else
+      let xs := runSB c ks x.2
+      (x.1 :: xs.1, xs.2)
 
 /-! ### Writer -/
 
@@ -616,6 +672,7 @@ def sbErrObs : SBErr → String
   | .nonData => "band:nondata"
   | .invalidBand id => s!"band:invalid:{id}"
   | .notDataLine => "notdataline"
+  | .interrupted => "interrupted"
 
 def parseDelims? (s : String) : Option (List Line) :=
   if s == "-" then some [] else
@@ -652,6 +709,29 @@ def cycleSizes (sizes : List Nat) (n : Nat) : List Nat :=
 def drainEndObs : DrainEnd → String
   | .eof => "eof"
   | .sizes => "sizes"
+  | .err e => s!"err:{sbErrObs e}"
+  | .panic => "panic"
+
+/-- `0` no handler, `1` a handler that always continues, `i<k>` a handler that interrupts at call `k` -/
+def parseHandler? (s : String) : Option (Bool × Option Nat) :=
+  if s == "0" then some (false, none)
+  else if s == "1" then some (true, none)
+  else match s.toList with
+    | 'i' :: rest => (String.ofList rest).toNat?.map fun k => (true, some k)
+    | _ => none
+
+/-- `f` = fill_buf, `c<amt>` = consume, `r<n>` = read into n bytes; comma separated -/
+def parseSBCalls? (s : String) : Option (List SBCall) :=
+  (s.splitOn ",").mapM fun x =>
+    match x.toList with
+    | ['f'] => some SBCall.fill
+    | 'c' :: rest => (String.ofList rest).toNat?.map SBCall.consume
+    | 'r' :: rest => (String.ofList rest).toNat?.map SBCall.read
+    | _ => none
+
+def sbObsObs : SBObs → String
+  | .bytes bs => s!"b:{bobs bs}"
+  | .consumed => "c"
   | .err e => s!"err:{sbErrObs e}"
   | .panic => "panic"
 
@@ -711,17 +791,28 @@ def handle? : List String → Option String
     if xs.any (fun z => z.2 == Res.panic) then some (s!"{"|".intercalate obs} stop=! left=!")
     else some (s!"{"|".intercalate obs} stop={stoppedObs r1.stoppedAt} left={srcLen r1.src}")
   | ["sb", handler, delims, sizes, reads, d] => do
-    let handler ← (if handler == "1" then some true else if handler == "0" then some false else none)
+    let (handler, intr) ← parseHandler? handler
     let delims ← parseDelims? delims
     let sizes ← parseSizes? sizes
     let reads ← parseSizes? reads
     let d ← streamArg? consts d
     let r := Reader.new consts (mkChunks sizes d) delims false
-    let s : SB := { r, handler, pos := 0, cap := 0, log := [] }
+    let s : SB := { r, handler, pos := 0, cap := 0, log := [], interruptAt := intr }
     let (out, e, s1) := drain consts s (cycleSizes reads (d.length + 2)) []
     let prog := s1.log.map fun (isErr, t) => s!"{if isErr then "e" else "p"}:{bobs t}"
     let tail := if e == .panic then "stop=! left=!" else s!"stop={stoppedObs s1.r.stoppedAt} left={srcLen s1.r.src}"
     some (s!"data={bobs out} prog=[{",".intercalate prog}] end={drainEndObs e} {tail}")
+  | ["sbc", handler, delims, sizes, calls, d] => do
+    let (handler, intr) ← parseHandler? handler
+    let delims ← parseDelims? delims
+    let sizes ← parseSizes? sizes
+    let calls ← parseSBCalls? calls
+    let d ← streamArg? consts d
+    let r := Reader.new consts (mkChunks sizes d) delims false
+    let s : SB := { r, handler, pos := 0, cap := 0, log := [], interruptAt := intr }
+    let (xs, s1) := runSB consts calls s
+    let prog := s1.log.map fun (isErr, t) => s!"{if isErr then "e" else "p"}:{bobs t}"
+    some (s!"{"|".intercalate (xs.map sbObsObs)} prog=[{",".intercalate prog}]")
   | ["wr", mode, d] => do
     let binary ← (if mode == "bin" then some true else if mode == "text" then some false else none)
     let d ← bytesPart? d
